@@ -93,6 +93,8 @@ class CallsMixin:
 
     def _isinst_known(self, n, v, cname, s1):
         if n == "issubclass":
+            if v.ty[0] == "opt" and v.ty[1][0] == "class":
+                v = V(v.ty[1], v.term, py=v.py)
             if v.ty[0] == "class" and v.py is not None:
                 return [(s1, mkbool(cname in self.src.mro(v.py)))]
             if v.ty[0] == "class":
@@ -833,7 +835,7 @@ class CallsMixin:
                 except Unsupported:
                     pass
         s0 = st.copy(); saved = s0.env; s0.env = env
-        self.fn_stack.append((fn.name, cls))
+        self.fn_stack.append((fn.name, cls, fn))
         if len(self.fn_stack) > 12:
             raise Unsupported("inline recursion")
         out = []
